@@ -90,6 +90,13 @@ var handlers = map[string]func(json.RawMessage) (any, error){
 		}
 		return vrun.RunEngine(&req), nil
 	},
+	"multi": func(b json.RawMessage) (any, error) {
+		var req vrun.MultiRequest
+		if err := json.Unmarshal(b, &req); err != nil {
+			return nil, err
+		}
+		return vrun.RunMulti(&req), nil
+	},
 	"func": func(b json.RawMessage) (any, error) {
 		var req vrun.FuncRequest
 		if err := json.Unmarshal(b, &req); err != nil {
@@ -343,6 +350,22 @@ func CallEngine(req *vrun.EngineRequest) *vrun.EngineAnswer {
 	}
 	if ans.HarnessErr != "" {
 		panic("harness failure: " + ans.HarnessErr)
+	}
+	return ans
+}
+
+// CallMulti sends a multi-run request to the shared worker.
+func CallMulti(req *vrun.MultiRequest) *vrun.MultiAnswer {
+	ans := &vrun.MultiAnswer{}
+	wd := time.Duration(req.WatchdogMs) * time.Millisecond
+	if wd <= 0 {
+		wd = 30 * time.Second
+	}
+	if cerr := sharedWorker.Call("multi", req, ans, wd+15*time.Second); cerr != nil {
+		if cerr.Harness != "" {
+			panic("harness failure: " + cerr.Harness)
+		}
+		return &vrun.MultiAnswer{ProcessDeath: cerr.Death}
 	}
 	return ans
 }
